@@ -76,9 +76,9 @@ func runC19Stress() {
 	}
 	// shutting one component down while a change is being announced: every OTHER live listener still gets the
 	// change, exactly once
-	rounds2 := 2500
+	rounds2 := 10000
 	if thorough() {
-		rounds2 = 40000
+		rounds2 = 100000
 	}
 	for round := 0; round < rounds2 && len(failures) < 3; round++ {
 		total++
